@@ -28,7 +28,7 @@ ASSUMPTIONS = ["only values the documentation places clearly inside or outside a
 EVAL_COUNTER = "probes"
 REQUIRED = {"quick": {"probes": 2500, "rejected_ok": 1200, "accepted_ok": 500, "group_lists": 400, "malformed_rejected": 100,
                       "unfitted_refused": 50, "rejected_state_checked": 1000},
-            "thorough": {"probes": 12000}}
+            "thorough": {"probes": 8000}}
 SHARD_TIMEOUT = {"quick": 1200, "thorough": 7000}
 
 KERN_OK = ["linear", "rbf", "poly", "polynomial", "laplacian", "sigmoid", "cosine", "precomputed"]
@@ -383,13 +383,13 @@ def run_case(case, ctx, st):
         pairs = [(a, b) for a in pars for b in pars if a < b]
         pairs = [pq for k, pq in enumerate(pairs) if k % 4 == case["part"]]
         for a, b in pairs:
-            for va in spec[a][0][:2] + spec[a][1][:2]:
-                for vb in spec[b][0][:2] + spec[b][1][:1]:
-                    bad = (not any(va is g or (type(va) is type(g) and va == g) for g in spec[a][0][:2])) or \
-                          (not any(vb is g or (type(vb) is type(g) and vb == g) for g in spec[b][0][:2]))
+            for va, ga in [(v, True) for v in spec[a][0][:2]] + [(v, False) for v in spec[a][1][:2]]:
+                for vb, gb in [(v, True) for v in spec[b][0][:2]] + [(v, False) for v in spec[b][1][:1]]:
+                    bad = not (ga and gb)
                     p = dict(base_params(name))
                     p[a], p[b] = va, vb
-                    if (a in ("kernel", "metric") and va == "precomputed") or (b in ("kernel", "metric") and vb == "precomputed"):
+                    if (a in ("kernel", "metric") and isinstance(va, str) and va == "precomputed") or \
+                            (b in ("kernel", "metric") and isinstance(vb, str) and vb == "precomputed"):
                         continue
                     if name == "Kauri" and not bad and 2 * p.get("min_samples_leaf", 1) > p.get("min_samples_split", 2):
                         bad = True
